@@ -31,6 +31,8 @@ type Leaf struct {
 	CorsHeaders  []string
 	CorsNilGuard bool
 	Pos          token.Pos
+	wrapFn       types.Object
+	authOrFn     types.Object
 }
 
 type MethodSwitch struct {
@@ -57,6 +59,9 @@ type RouteNode struct {
 	Children   []ChildArm
 	Tail       string // "" = miss
 	Undecided  []string
+	SplitFn    types.Object
+	WrapFns    []types.Object
+	AuthOrFns  []types.Object
 }
 
 type ServeModel struct {
@@ -77,6 +82,9 @@ type ServeModel struct {
 }
 
 type RouterModel struct {
+	SplitFn  types.Object // the segment splitter every route function calls
+	WrapFn   types.Object // middlewares(h, …)
+	AuthOrFn types.Object // authMiddlewareOr(…)
 	P        *Program
 	Nodes    map[string]*RouteNode
 	Order    []string
@@ -87,6 +95,7 @@ type RouterModel struct {
 }
 
 type rmCtx struct {
+	node *RouteNode
 	p            *Program
 	info         *types.Info
 	path, method types.Object // params of the current route function
@@ -186,9 +195,37 @@ func BuildRouterModel(p *Program) (*RouterModel, error) {
 					m.Order = append(m.Order, n.Name)
 				}
 			}
-			if fd.Recv == nil && fd.Name.Name == "splitPath" {
-				m.SplitOK, m.SplitWhy = recogniseSplitPath(p, fd)
+		}
+	}
+	// helper functions are identified by use, not by name
+	m.SplitWhy = "no route function calls a segment splitter"
+	for _, name := range m.Order {
+		n := m.Nodes[name]
+		if n.SplitFn != nil {
+			if m.SplitFn == nil {
+				m.SplitFn = n.SplitFn
+			} else if m.SplitFn != n.SplitFn {
+				n.Undecided = append(n.Undecided, "route functions use different segment splitters")
 			}
+		}
+		for _, f := range n.WrapFns {
+			if m.WrapFn == nil {
+				m.WrapFn = f
+			} else if m.WrapFn != f {
+				n.Undecided = append(n.Undecided, "leaves use different wrap helpers")
+			}
+		}
+		for _, f := range n.AuthOrFns {
+			if m.AuthOrFn == nil {
+				m.AuthOrFn = f
+			} else if m.AuthOrFn != f {
+				n.Undecided = append(n.Undecided, "leaves use different auth combinators")
+			}
+		}
+	}
+	if m.SplitFn != nil {
+		if fd := declOfObj(p, m.SplitFn); fd != nil {
+			m.SplitOK, m.SplitWhy = recogniseSplitPath(p, fd)
 		}
 	}
 	if m.Serve == nil {
@@ -221,7 +258,7 @@ func buildRouteNode(p *Program, fd *ast.FuncDecl) *RouteNode {
 	info := p.Pkg.TypesInfo
 	n := &RouteNode{Name: fd.Name.Name, Decl: fd, LitLeaves: map[string]*MethodSwitch{}}
 	ps := paramObjs(info, fd)
-	c := &rmCtx{p: p, info: info, recv: recvObj(info, fd)}
+	c := &rmCtx{p: p, info: info, recv: recvObj(info, fd), node: n}
 	if len(ps) != 2 {
 		n.Undecided = append(n.Undecided, "route function does not have two named parameters")
 		return n
@@ -282,9 +319,11 @@ func buildRouteNode(p *Program, fd *ast.FuncDecl) *RouteNode {
 		und("splitPath statement has an unexpected shape")
 		return n
 	}
-	if fn := typeutil.Callee(info, call); fn == nil || fn.Name() != "splitPath" || fn.Pkg() != p.Pkg.Types {
-		und("segment splitter is not the package's splitPath")
+	if fn := typeutil.Callee(info, call); fn == nil || fn.Pkg() != p.Pkg.Types || fn.Parent() != p.Pkg.Types.Scope() {
+		und("segment splitter is not a package-level function of the generated package")
 		return n
+	} else {
+		n.SplitFn = fn
 	}
 	if id, ok := as.Lhs[0].(*ast.Ident); ok && id.Name != "_" {
 		prefixObj = info.Defs[id]
@@ -475,6 +514,12 @@ func (c *rmCtx) methodSwitch(st ast.Stmt, und func(string, ...any)) (*MethodSwit
 		}
 		lf.Method = meth
 		lf.Pos = cl.Pos()
+		if lf.wrapFn != nil {
+			c.node.WrapFns = append(c.node.WrapFns, lf.wrapFn)
+		}
+		if lf.authOrFn != nil {
+			c.node.AuthOrFns = append(c.node.AuthOrFns, lf.authOrFn)
+		}
 		if _, dup := ms.Arms[meth]; dup {
 			und("duplicate method case %s", meth)
 		}
@@ -594,19 +639,23 @@ func (c *rmCtx) leaf(body []ast.Stmt, und func(string, ...any)) *Leaf {
 			und("operation arm: wrap is not middlewares(h, authMiddlewareOr(...))")
 			return nil
 		}
-		if fn := typeutil.Callee(c.info, call); fn == nil || fn.Name() != "middlewares" || fn.Pkg() != c.p.Pkg.Types {
-			und("operation arm: wrap is not the package's middlewares()")
+		wrapFn := typeutil.Callee(c.info, call)
+		if wrapFn == nil || wrapFn.Pkg() != c.p.Pkg.Types || wrapFn.Parent() != c.p.Pkg.Types.Scope() {
+			und("operation arm: wrap is not a package-level helper of the generated package")
 			return nil
 		}
+		lf.wrapFn = wrapFn
 		inner, ok := call.Args[1].(*ast.CallExpr)
 		if !ok {
 			und("operation arm: second argument of middlewares is not a call")
 			return nil
 		}
-		if fn := typeutil.Callee(c.info, inner); fn == nil || fn.Name() != "authMiddlewareOr" || fn.Pkg() != c.p.Pkg.Types {
-			und("operation arm: middleware is not authMiddlewareOr(...)")
+		orFn := typeutil.Callee(c.info, inner)
+		if orFn == nil || orFn.Pkg() != c.p.Pkg.Types || orFn.Parent() != c.p.Pkg.Types.Scope() {
+			und("operation arm: middleware is not built by a package-level auth combinator")
 			return nil
 		}
+		lf.authOrFn = orFn
 		for _, a := range inner.Args {
 			f := c.rtField(a)
 			if f == nil {
@@ -1024,4 +1073,19 @@ func schemaPathReadsKey(p *Program, keyT types.Type) bool {
 		return true
 	})
 	return found
+}
+
+// declOfObj: the FuncDecl that declares a function or method object.
+func declOfObj(p *Program, o types.Object) *ast.FuncDecl {
+	if o == nil {
+		return nil
+	}
+	for _, f := range p.Pkg.Syntax {
+		for _, d := range f.Decls {
+			if fd, ok := d.(*ast.FuncDecl); ok && p.Pkg.TypesInfo.Defs[fd.Name] == o {
+				return fd
+			}
+		}
+	}
+	return nil
 }
